@@ -99,6 +99,11 @@ type subRec struct {
 	closed, cancel bool
 	cf             context.CancelFunc
 	done           chan struct{}
+	// wall-clock facts about the consumer, for the hypothesis "the consumer keeps reading": when the
+	// subscription was cancelled and when the consumer saw the close.  finitestate's forwarder gives a
+	// value in flight up after forwardGrace (100 ms) without a reader once the context is cancelled, so a
+	// close seen less than that after the cancel cannot have involved a discarded value.
+	cancelAt, closedAt time.Time
 }
 
 // subscribe creates a subscriber; lower() / upper() bound the number of state changes "now".
@@ -121,6 +126,7 @@ func subscribe(s stateable, lower, upper func() int, delayUS int) *subRec {
 		}
 		sr.mu.Lock()
 		sr.closed = true
+		sr.closedAt = time.Now()
 		sr.mu.Unlock()
 	}()
 	return sr
@@ -134,6 +140,7 @@ func (sr *subRec) cancelNow(lower, upper func() int) {
 	}
 	sr.cancel = true
 	sr.ulo = lower()
+	sr.cancelAt = time.Now()
 	sr.mu.Unlock()
 	sr.cf()
 }
@@ -191,7 +198,15 @@ func (sr *subRec) String(uhi int) string {
 	if u < 0 {
 		u = uhi
 	}
-	return fmt.Sprintf("%d,%d,%d,%d,%d,%d,%s", sr.lo, sr.hi, sr.ulo, u, bi(sr.closed), bi(sr.cancel), b.String())
+	// 8th field: milliseconds between the cancel and the consumer seeing the close (-1: not both)
+	ms := int64(-1)
+	if sr.closed && sr.cancel && !sr.cancelAt.IsZero() && !sr.closedAt.IsZero() {
+		ms = sr.closedAt.Sub(sr.cancelAt).Milliseconds()
+		if ms < 0 {
+			ms = 0
+		}
+	}
+	return fmt.Sprintf("%d,%d,%d,%d,%d,%d,%s,%d", sr.lo, sr.hi, sr.ulo, u, bi(sr.closed), bi(sr.cancel), b.String(), ms)
 }
 
 func joinSubs(subs []*subRec, uhi int) string {
